@@ -64,6 +64,7 @@ type frame struct {
 	block  *ssa.BasicBlock
 	prev   *ssa.BasicBlock
 	defers []func()
+	depth  int // call depth of this frame
 }
 
 // ---------------------------------------------------------------- values
@@ -180,6 +181,7 @@ func (ex *Exec) ensureInit(p *ssa.Package) {
 		}
 	}()
 	fr := newFrame(fn, nil)
+	fr.depth = ex.depth
 	ex.run(fr)
 }
 
@@ -565,6 +567,7 @@ func (ex *Exec) callFn(fn *ssa.Function, args []Value, env []Value, site string)
 		panic(pathAbort{"unwind: call depth at " + name})
 	}
 	fr := newFrame(fn, env)
+	fr.depth = ex.depth
 	for i, p := range fn.Params {
 		fr.set(p, args[i])
 	}
@@ -611,7 +614,10 @@ func (ex *Exec) run(fr *frame) (result Value) {
 	gp := pv.(goPanic)
 	ex.panics = append(ex.panics, &panicState{p: gp})
 	st := ex.panics[len(ex.panics)-1]
-	depth := ex.depth
+	depth := fr.depth
+	ex.depth = depth
+	// recover() stops the panic only when the deferred function itself calls it (not a function it calls)
+	st.deferDepth = depth + 1
 	ds := fr.defers
 	fr.defers = nil
 	for i := len(ds) - 1; i >= 0; i-- {
@@ -633,8 +639,9 @@ func (ex *Exec) run(fr *frame) (result Value) {
 }
 
 type panicState struct {
-	p         goPanic
-	recovered bool
+	p          goPanic
+	recovered  bool
+	deferDepth int
 }
 
 // runGuarded runs from block b; a Go-level panic carrying an interpreted goPanic is returned instead of propagated.
@@ -822,6 +829,8 @@ func (ex *Exec) exec(fr *frame, ins ssa.Instruction) {
 				panic(goPanic{"index out of range (string)", ex.pos2(in)})
 			}
 			fr.set(in, int64(c[i]))
+		case *Term:
+			fr.set(in, ex.symStringByte(c, i, ex.pos2(in)))
 		default:
 			panic(pathAbort{fmt.Sprintf("unsupported: index on %T", x)})
 		}
@@ -883,6 +892,8 @@ func (ex *Exec) exec(fr *frame, ins ssa.Instruction) {
 				panic(goPanic{"index out of range (string)", ex.pos2(in)})
 			}
 			fr.set(in, int64(m[i]))
+		case *Term:
+			fr.set(in, ex.symStringByte(m, ex.concreteInt(ex.get(fr, in.Index)), ex.pos2(in)))
 		default:
 			panic(pathAbort{fmt.Sprintf("unsupported: lookup on %T", x)})
 		}
@@ -1312,8 +1323,29 @@ func (ex *Exec) builtin(b *ssa.Builtin, args []Value, cc *ssa.CallCommon, site s
 		return nil
 	case "print", "println":
 		return nil
+	case "clear":
+		switch x := args[0].(type) {
+		case *Map:
+			if x != nil {
+				if x.O != nil && x.O.Frozen && len(x.Entries) > 0 {
+					ex.mon.frozenWrite(ex, x.O, site+" (clear)", tTrue)
+				}
+				x.Entries = nil
+			}
+			return nil
+		case Slice:
+			var et types.Type
+			if st, ok := cc.Args[0].Type().Underlying().(*types.Slice); ok {
+				et = st.Elem()
+			}
+			for i := 0; i < x.Len && et != nil; i++ {
+				x.Arr[x.Off+i] = ex.zero(et)
+			}
+			return nil
+		}
+		panic(pathAbort{fmt.Sprintf("unsupported: builtin clear %T", args[0])})
 	case "recover":
-		if n := len(ex.panics); n > 0 && !ex.panics[n-1].recovered {
+		if n := len(ex.panics); n > 0 && !ex.panics[n-1].recovered && ex.depth == ex.panics[n-1].deferDepth {
 			ex.panics[n-1].recovered = true
 			return Iface{T: types.Typ[types.String], V: "runtime error: " + ex.panics[n-1].p.msg}
 		}
@@ -1338,4 +1370,15 @@ func (ex *Exec) permute(es []mapEntry) []mapEntry {
 		rest = append(rest[:c], rest[c+1:]...)
 	}
 	return append(out, rest...)
+}
+
+// symStringByte: s[i] on a symbolic string with a concrete index: bounds decided by the solver; the byte is the
+// character code (strings are modelled as ASCII text where bytes are inspected).
+func (ex *Exec) symStringByte(s *Term, i int, site string) Value {
+	if i < 0 || !ex.decideBool(mkIntCmp("<", mkInt(int64(i)), mkStrOp("str.len", SInt, s))) {
+		panic(goPanic{"index out of range (string)", site})
+	}
+	code := mkStrOp("str.to_code", SInt, mkStrOp("str.at", SStr, s, mkInt(int64(i))))
+	ex.assume(mkIntCmp("<=", code, mkInt(127)))
+	return lower(code)
 }
